@@ -204,17 +204,21 @@ func runC16(c *Ctx) {
 	// ---- R3 ----
 	okR3 := false
 	at := "-"
+	var hstreams []ssa.Value
+	if hs, _ := c.streamReadSites(c.readPath()); len(hs) > 0 {
+		for _, h := range hs {
+			if v := h.reportedStream(); v != nil {
+				hstreams = append(hstreams, v)
+			}
+		}
+	}
 	isHdrStream := func(v ssa.Value) bool {
-		ex, ok := v.(*ssa.Extract)
-		if !ok || ex.Index != 1 {
-			return false
+		for _, h := range hstreams {
+			if v == h {
+				return true
+			}
 		}
-		cc, ok := ex.Tuple.(*ssa.Call)
-		if !ok || !cc.Call.IsInvoke() || cc.Call.Method.Name() != "ReadAtLeast" || len(cc.Call.Args) != 3 {
-			return false
-		}
-		k, isK := cc.Call.Args[2].(*ssa.Const)
-		return isK && k.Value != nil && isAllOnes(k)
+		return false
 	}
 	for f := range c.readPath() {
 		flow.Instrs(f, func(in ssa.Instruction) {
